@@ -303,6 +303,8 @@ func (r *yieldRewriter) rewriteStmt(
 		// ↓↓ trival branch ↓↓
 		// all other stmt are trival,
 		// no rewriting, no combine
+		// (a yield call surviving in here would be left as the no-op stub)
+		r.assert(r.mustNoYield(stmt), stmt, "yield not supported in %T", stmt)
 		children.push(stmt, kindTrival)
 		return children
 	}
@@ -389,6 +391,8 @@ func (r *yieldRewriter) rewriteIfStmt(
 		}
 		return block
 	}
+
+	r.assert(r.mustNoYield(stmt.Init), stmt, "yield not supported in if-init")
 
 	switch alt := stmt.Else.(type) {
 	case nil:
